@@ -131,6 +131,42 @@ fn c19_full_width_ints() {
 }
 
 
+
+/// hasher under which every ODD counter value yields a rejected candidate (low 16 bits >= 257) and every even one an accepted
+/// candidate that depends on seed and counter: exercises the rejection path of `draw` (with PairHash the first candidate is always accepted)
+#[derive(Debug, Clone, Copy, PartialEq, Eq)]
+struct RejHash;
+fn rej_val(seed: u64, v: u64) -> u64 { if v & 1 == 1 { 0x8000 | (v & 0xff) } else { (seed.wrapping_add(v.wrapping_mul(7))) % 257 } }
+impl Hasher for RejHash {
+    type Digest = MD;
+    const COLLISION_RESISTANCE: u32 = 128;
+    fn hash(_b: &[u8]) -> MD { MD(0) }
+    fn merge(x: &[MD; 2]) -> MD { MD((x[0].0 & 0xffff).wrapping_mul(31) ^ (x[1].0 & 0xff)) }
+    fn merge_with_int(seed: MD, value: u64) -> MD { MD(rej_val(seed.0 & 0xffff, value)) }
+}
+impl ElementHasher for RejHash {
+    type BaseField = T;
+    fn hash_elements<E: FieldElement<BaseField = T>>(e: &[E]) -> MD { MD(E::slice_as_base_elements(e)[0].as_int()) }
+}
+// @ob id=C19 tier=quick req=1 to=600 funcs="DefaultRandomCoin::{new,draw,reseed,next}" bounds="history new(s) draw draw draw reseed(d) draw; every draw meets exactly one rejected candidate before an accepted one" sym="seed element, reseed digest byte" desc="after a rejected candidate the coin continues with the NEXT counter value: the k-th draw returns the candidate of counter 2k (a function of the number of earlier draws), also after a reseed"
+#[kani::proof]
+#[kani::unwind(8)]
+#[kani::stub(alloc::fmt::format, nofmt)]
+fn c19_draws_with_rejected_candidates() {
+    let s = anyt();
+    let mut coin = DefaultRandomCoin::<RejHash>::new(&[s]);
+    let seed = s.as_int();
+    let a: T = coin.draw().unwrap(); assert!(a.as_int() == rej_val(seed, 2));
+    let b: T = coin.draw().unwrap(); assert!(b.as_int() == rej_val(seed, 4));
+    let c: T = coin.draw().unwrap(); assert!(c.as_int() == rej_val(seed, 6));
+    let dv: u8 = kani::any();
+    coin.reseed(MD(dv as u64));
+    let seed2 = RejHash::merge(&[MD(seed), MD(dv as u64)]).0 & 0xffff;
+    let d: T = coin.draw().unwrap(); assert!(d.as_int() == rej_val(seed2, 2));
+    let e: T = coin.draw().unwrap(); assert!(e.as_int() == rej_val(seed2, 4));
+    kani::cover!(a != b);
+}
+
 // @ob id=C19 tier=quick req=1 to=1800 mem=24 funcs="DefaultRandomCoin::draw_integers" bounds="requested counts 999..=1002 around the 1000-attempt cap of draw_integers, domain 2^12, identity hasher" sym="nonce (full 64 bits), requested count" desc="draw_integers returns exactly the requested number of integers or an error -- never a shorter vector"
 #[kani::proof]
 #[kani::unwind(1003)]
